@@ -261,6 +261,8 @@ func c12stepCases(rng *sx.Rng, n int) {
 			// key chains in Go maps: with the token-shaped value {{matrix}}-b the key a-{{matrix}} becomes
 			// a-{{matrix}}-b, which is the OLD name of its sibling (single pass: both entries survive)
 			d.set("chain", dMap(dkv{"a-{{matrix}}", dInt(1)}, dkv{"a-{{matrix}}-b", dInt(2)}, dkv{"zz{{matrix}}", dStr("v{{matrix}}")}))
+			d.set("pair", dMap(dkv{"k-a", dInt(1)}, dkv{"k-{{matrix}}", dInt(2)}))
+			d.set("pair2", dMap(dkv{"k-{{matrix}}", dInt(1)}, dkv{"k-a", dInt(2)}))
 			d.set("a-{{matrix}}", dStr("first"))
 			d.set("a-{{matrix}}-b", dStr("second"))
 			d.set("matrix", dMap(dkv{"setup", dList(dStr("a"), dStr("{{matrix}}"), dStr("{{matrix}}-b"))}, dkv{"adjustments", dList(dMap(dkv{"with", dStr("extra")}, dkv{"skip", sx.Pick(rng, []*dv{dBool(false), dBool(true), dStr("why")})}))}))
